@@ -70,6 +70,7 @@ class Opts:
         self.mul_ovf = "exact"     # 'exact' | 'bits' (multiplier-free sufficient condition for no signed overflow)
         self.div_spec = False      # sdiv/srem by specification with fresh quotient/remainder
         self.div_uf = None         # None | (sdivF, sremF)
+        self.clz_uf = False        # count-leading-zeros as an uninterpreted function (relational obligations only)
         self.div_uf_all = False    # abstract divisions by constants too (relational obligations)
         self.fma = "fused"         # llvm.fmuladd: 'fused' | 'unfused'
         self.fp_mode = "bits"      # 'bits' | 'real'
@@ -997,6 +998,11 @@ class Exec:
         elif name.startswith("llvm.is.constant"):
             a = ins.args[0]
             env[ins.dest] = bv(1, 1 if a.kind in ("int", "fp", "null") else 0)
+        elif (name.startswith("llvm.ctlz") or name.startswith("llvm.cttz")) and o.clz_uf:
+            x = args[0]
+            w = x.size()
+            f = z3.Function("%s%d" % ("CLZ" if "ctlz" in name else "CTZ", w), z3.BitVecSort(w), z3.BitVecSort(w))
+            env[ins.dest] = f(x)       # relational obligations: same argument => same count
         elif name.startswith("llvm.ctlz") or name.startswith("llvm.cttz"):
             x = args[0]
             w = x.size()
